@@ -118,6 +118,9 @@ func runC09(s *spec.Spec, logPath string) {
 			for _, st := range task.Ops {
 				simrt.OpBoundary()
 				switch {
+				case st.Clock != nil:
+					simrt.AdvanceClock(time.Duration(*st.Clock) * time.Second)
+					continue
 				case st.U != nil:
 					simrt.BeginCall()
 					simrt.CallBudget(callBudgetOf(s.Universe[*st.U].String()), s.Universe[*st.U].String())
